@@ -211,7 +211,7 @@ def one_source(run, bench, rng, raw, mr, corpus_base):
                 run.count("unequal_but_passed_by_regexp(fine)")
             else:
                 try:
-                    mech = classify_false_negative(fam, set(fixed), monitors.pkt_to_pv(fam, fam["root"], u)) if not anys else None
+                    mech = classify_false_negative(fam, set(fixed), monitors.pkt_to_pv(fam, fam["root"], u))
                 except Exception:
                     mech = None
                 run.violation("the regexp pre-filter rejects a string that unpacks to a packet equal to the pattern",
